@@ -4,8 +4,9 @@
    parser object. *)
 From Coq Require Import String NArith List Bool.
 From Kd Require Import theories.Base theories.Printers theories.Filters theories.Pairing theories.PairingProofs
-  theories.PairingProj theories.PairingFilter theories.FiltersTraces theories.DecoderDSL theories.DecoderDeps
-  gen.GenEnums gen.GenDecoders.
+  theories.PairingProj theories.PairingFilter theories.FiltersTraces theories.FiltersPipeline theories.Container
+  theories.DecoderDSL theories.DecoderDeps theories.Format theories.FiltersPipelineTables gen.GenEnums gen.GenDecoders
+  gen.GenCodes.
 Import ListNotations.
 Open Scope N_scope.
 Close Scope string_scope.
@@ -57,10 +58,44 @@ Proof.
   - cbn [negb app]. unfold memN. rewrite C. cbn. reflexivity.
 Qed.
 
+(* 4b. ALL filters at once - thread, process, class, BSD subclass: the request yields exactly the traces of the run
+      with NO filter that satisfy every one of them, the process being judged with the tables the unfiltered run has at
+      that trace (thread map as superseded by the new-thread / exec / terminate-pid / sampler records read so far, of
+      whatever thread), in the same order, each window restricted to the fed records, and each with the SAME tables
+      (hence the same process column and the same text for decoders that read the tables).
+      Hypothesis: the decoders that write the tables belong to the trace and sampler classes (checked on the bundled
+      code table below, and on the source by the harness). *)
+Theorem c13_all_filters : forall dom dec kind payload,
+  (forall c, kind c <> 0 -> cls c = DBG_TRACE \/ cls c = DBG_PERF) ->
+  forall cfg s0 h,
+  pipeline dom dec tstate (cstep kind payload) cproc_ok cfg s0 h =
+  map (restrictS tstate (fed cfg))
+      (filter (fun x => requested cfg (p_code (fst (fst x))) && keepT tstate cfg x && keepP tstate cproc_ok cfg x)
+              (reference dom dec tstate (cstep kind payload) s0 h)).
+Proof. intros. now apply traces_filters_commute. Qed.
+
+Definition table_writers : list string :=
+  ["TRACE_DATA_NEWTHREAD"; "TRACE_DATA_EXEC"; "TRACE_STRING_NEWTHREAD"; "TRACE_STRING_EXEC";
+   "TRACE_DATA_THREAD_TERMINATE_PID"; "PERF_THD_Data"; "PERF_Event"]%string.
+Theorem c13_writer_classes :
+  forallb (fun p => negb (existsb (String.eqb (snd p)) table_writers)
+                    || N.eqb (cls (fst p)) DBG_TRACE || N.eqb (cls (fst p)) DBG_PERF) code_entries = true.
+Proof. vm_compute. reflexivity. Qed.
+
+Example c13_all_filters_nontrivial :
+  (* thread 8's process (55) is declared only by a sampler record of thread 7; request: class BSD + process "55" + tid 8 *)
+  let dom c := false in let dec c := true in
+  let kind c := if N.eqb c 0x25010000 then TK_THD_DATA else 0 in
+  let words u := match u with 0 => [55; 8; 0; 1] | _ => [0; 0; 0; 0] end in
+  let cfg := mkCfg (Some 8) (Some (s2b "55")) [4] [] in
+  let h := [mkPev 7 0x25010000 QN 0; mkPev 8 0x040c000c QS 1; mkPev 8 0x040c000c QE 2; mkPev 7 0x040c000c QA 3] in
+  map (fun x => p_uid (fst (fst x))) (pipeline dom dec tstate (cstep kind words) cproc_ok cfg (mkTs ([], []) []) h) = [2].
+Proof. vm_compute. reflexivity. Qed.
+
 (* 5. no residue: the request is a function of the caller's configuration and the dump; it does not read what an
       earlier request left in the object (tables are re-declared by the dump, image lists are cleared), and it returns
       the configuration unchanged - validated against the implementation by sequences of requests on one object *)
-Record pobj := mkObj { ob_cfg : fcfg; ob_tables : list (N * N); ob_images : list N }.
+Record pobj := mkObj { ob_cfg : Filters.fcfg; ob_tables : list (N * N); ob_images : list N }.
 Definition traces_call dom dec (o : pobj) (declared : list (N * N)) (h : list pev) :=
   (traces_model dom dec (ob_cfg o) h, mkObj (ob_cfg o) declared (ob_images o)).
 Theorem c13_idempotent : forall dom dec o tm h,
